@@ -1,4 +1,4 @@
-From SV Require Import Model.Common Model.Metrics.
+From SV Require Import Model.Common Model.Metrics Model.MetricsMem.
 From Coq Require Import ExtrOcamlBasic.
 Definition run_line_model := run_line run_case_C19.
 Extraction "model.ml" run_line_model.
